@@ -29,6 +29,14 @@ def programs(quick):
         src += ("mk := func() { x := 5; return func(y) { return x + y + 777000 } }\nf := mk()\n"
                 "g := func() { z := 2; return func() { return z * 5 } }\nout := f(1) + g()() + a[%d]\n" % (distinct - 1))
         out.append({"tag": "consts>255/%d+%d" % (distinct, dups), "src": src, "expect": 777006 + 10 + 1000 + distinct - 1})
+    # more than 255 globals: selector / index assignment and compound assignment to a global whose index needs two bytes
+    for ng in (254, 255, 256, 300, 600):
+        src = "".join("g%d := %d\n" % (i, i) for i in range(ng))
+        src += "m := {k: 0, arr: [0, 0]}\nm.k = 7\nm.arr[1] = 5\nm.k += g%d\nz := 1\nz += m.k\nout := z + m.arr[1]\n" % (ng - 1)
+        out.append({"tag": "globals>255/%d" % ng, "src": src, "expect": 1 + 7 + ng - 1 + 5})
+        # the same variables as top-level block variables (they occupy global slots that are never re-used)
+        src = "".join("if true { b%d := %d }\n" % (i, i) for i in range(ng)) + "m := {k: 0}\nm.k = 7\nm.k += 1\nout := m.k\n"
+        out.append({"tag": "block-globals>255/%d" % ng, "src": src, "expect": 8})
     for i, p in enumerate(out):
         p["id"] = i + 1
     return out
